@@ -451,3 +451,37 @@ func vC01FlipSig(r *rand.Rand, s string) string {
 	b[r.Intn(len(b))] ^= byte(1 << uint(r.Intn(8)))
 	return base64.StdEncoding.EncodeToString(b)
 }
+
+// ---- forced key-tag collisions: pairs of Ed25519 seeds whose DNSKEY RDATA (given flags,
+// protocol 3, algorithm 15) have the same tag, found by search ----
+
+type vC01Pool struct {
+	pairs [][2][32]byte
+}
+
+func vC01BuildPool(r *rand.Rand, n int, flags uint16) *vC01Pool {
+	w := vC01NewW(r)
+	byTag := map[uint16][][32]byte{}
+	p := &vC01Pool{}
+	for i := 0; i < n; i++ {
+		var seed [32]byte
+		r.Read(seed[:])
+		k := w.keyFromSeed("x.", flags, dns.ED25519, seed)
+		t := vC01KeyTag(k.key)
+		for _, other := range byTag[t] {
+			p.pairs = append(p.pairs, [2][32]byte{other, seed})
+		}
+		byTag[t] = append(byTag[t], seed)
+	}
+	return p
+}
+
+func (w *vC01W) keyFromSeed(zone string, flags uint16, alg uint8, seed [32]byte) *vC01Key {
+	sub := rand.New(rand.NewSource(int64(seed[0]) | int64(seed[1])<<8 | int64(seed[2])<<16 | int64(seed[3])<<24 | int64(seed[4])<<32 | int64(seed[5])<<40 | int64(seed[6])<<48))
+	save := w.r
+	w.r = sub
+	k := w.newKey(zone, flags, alg)
+	w.r = save
+	return k
+}
+
